@@ -1,6 +1,6 @@
 (* extraction root for C09 — no proofs are needed to build this file *)
 Require Extraction.
 Require Import ExtrOcamlBasic.
-From V Require Import Sem Prod Incl TrimDefs Lang NfaDefs NfaAcDefs.
+From V Require Import Sem Prod Incl TrimDefs Lang NfaDefs NfaAcDefs HkcDefs.
 Extraction "ex_c09.ml" wincl_dec wequiv_dec wis_empty wincl_model gate_verdict nfa_same nuseless nstates
-  ac_run ac_model ac_incl_model.
+  ac_run ac_model ac_incl_model hkc_model.
